@@ -34,6 +34,7 @@ theorem Atom.evalN_eq (q c : UInt8) (a : Atom) : a.eval q c = a.evalN q.toNat c.
   | byte b => rfl
   | quote => simp only [Atom.eval, Atom.evalN]; exact (toNat_eq_iff c q).symm
   | pred pr => exact Pred.evalN_eq pr c
+  | lt n => rfl
 
 theorem okByte_of_holds {src : Bytes} {p k : Nat} {q c : UInt8} {lit : Lit} (hc : src[p + k]? = some c)
     (h : lit.holds src p q) : lit.okByte q.toNat k c.toNat = true := by
@@ -84,6 +85,7 @@ theorem vals?_mem {q c : UInt8} : ∀ {alts : List Atom} {vs : List Nat}, vals? 
               simp only [Atom.eval, beq_iff_eq] at ha
               rw [ha, h1]
             | pred _ => simp [Atom.val?] at h1
+            | lt _ => simp [Atom.val?] at h1
           rw [this]; exact List.mem_cons_self
         · exact List.mem_cons_of_mem _ (ih h2 ha)
 
@@ -116,12 +118,14 @@ theorem Atom.evalN_noQuote {a : Atom} (h : a.isQuote = false) (q q' c : Nat) : a
   | byte _ => rfl
   | quote => cases h
   | pred _ => rfl
+  | lt _ => rfl
 
 theorem Atom.val?_noQuote {a : Atom} (h : a.isQuote = false) (q q' : Nat) : a.val? q = a.val? q' := by
   cases a with
   | byte _ => rfl
   | quote => cases h
   | pred _ => rfl
+  | lt _ => rfl
 
 theorem vals?_noQuote : ∀ {alts : List Atom}, alts.any Atom.isQuote = false → ∀ q q', vals? q alts = vals? q' alts := by
   intro alts
